@@ -1332,6 +1332,11 @@ func runC17(c *Ctx) {
 		nnum = 60000
 	}
 	c17Numerals(c, fixedU, nnum)
+	nbytes := 4000
+	if c.Thorough {
+		nbytes = 60000
+	}
+	c17ParseBytes(c, nbytes)
 
 	for ui := 0; ui < nUniverses; ui++ {
 		u := fixedU
@@ -1439,10 +1444,11 @@ func c17RunCases(c *Ctx, cases []*c17Case) {
 		for _, cs := range cases[lo:hi] {
 			reqs = append(reqs, []string{"C17.case", cs.t.enc(), cs.v.encModel()})
 			reqs = append(reqs, []string{"C17.caser", cs.t.enc(), cs.v.encModel()})
+			reqs = append(reqs, []string{"C17.filterb", cs.t.enc(), hx(string(cs.text))})
 		}
 		reps := c.Drv.AskBatch(reqs)
 		for i, cs := range cases[lo:hi] {
-			c17Judge(c, cs, reps[2*i]+"\x01"+reps[2*i+1], true)
+			c17Judge(c, cs, reps[3*i]+"\x01"+reps[3*i+1]+"\x02"+reps[3*i+2], true)
 		}
 	}
 }
@@ -1450,7 +1456,8 @@ func c17RunCases(c *Ctx, cases []*c17Case) {
 // c17AskBoth: the replies of the exact-decimal model and of the rounded-numeral model.
 func c17AskBoth(c *Ctx, cs *c17Case) string {
 	return c.Drv.Ask("C17.case", cs.t.enc(), cs.v.encModel()) + "\x01" +
-		c.Drv.Ask("C17.caser", cs.t.enc(), cs.v.encModel())
+		c.Drv.Ask("C17.caser", cs.t.enc(), cs.v.encModel()) + "\x02" +
+		c.Drv.Ask("C17.filterb", cs.t.enc(), hx(string(cs.text)))
 }
 
 // c17Judge compares one case; returns the keys of the failures found.
@@ -1472,7 +1479,10 @@ func c17Judge(c *Ctx, cs *c17Case, reply string, report bool) []string {
 		fail(Violation{Kind: "property", Key: "C17:panic", What: "IsValidJson/FilterJson panicked: " + g.panic})
 		return fails
 	}
-	replyR := ""
+	replyR, replyB := "", ""
+	if i := strings.IndexByte(reply, 2); i >= 0 {
+		reply, replyB = reply[:i], reply[i+1:]
+	}
 	if i := strings.IndexByte(reply, 1); i >= 0 {
 		reply, replyR = reply[:i], reply[i+1:]
 	}
@@ -1593,6 +1603,11 @@ func c17Judge(c *Ctx, cs *c17Case, reply string, report bool) []string {
 				What: fmt.Sprintf("IsValidJson of the filtered value differs from the rounded-numeral model (%s vs %s)", g.check2, tr[2]),
 				Impl: g.check2, Model: tr[2], Broken: "correspondence C17.caser (Martian.TypesR.check)"})
 		}
+	}
+	// ---- BYTES: the returned message, byte for byte, vs the byte-level model of the splicing
+	//      (Martian.JsonBytes.filterBytes: fast path returns the input slice, otherwise re-encoding) ----
+	if replyB != "" {
+		c17JudgeBytes(cs, &g, replyB, report, r, fail)
 	}
 	// ---- martian/core: LazyArgumentMap.Path("", …) = LazyArgumentMap.filter(dest) ----
 	// Same value as dest.FilterJson of the object (struct: declared members only; typed
